@@ -233,10 +233,9 @@ func vC08NestCase(t *testing.T, o *vC08Out, w *vC08World, pr vC08NestParams, kin
 	if pr.mode != 1 && (aborted || !answered || rc != dns.RcodeSuccess) {
 		inconcl, why = true, why+" unexpected reply"
 	}
+	// one provisional entry is filed before every address lookup that was started - also when the client's
+	// cancellation lands only during the second lookup (the first at [t0,h0], the others at [h1,t1])
 	nprov := nLookups
-	if aborted {
-		nprov = 1
-	}
 
 	var ds, dsDesc []string
 	for _, z := range []string{"tld.", "a.tld.", "s.a.tld."} {
@@ -304,8 +303,8 @@ func vC08NestCase(t *testing.T, o *vC08Out, w *vC08World, pr vC08NestParams, kin
 	}
 	m := map[string]any{
 		"k": kind, "go_fail": goFail, "nontrivial": !inconcl && nprov > 0,
-		"coq": fmt.Sprintf("CaseNest %d %d %d %d %s %s %s %s %s %s [%s] %s %s %s %s %s",
-			pr.tTLD, pr.tA, pr.tS, nprov, warmTerm, vC08Z(t0), vC08Z(h0), vC08Z(h1), vC08Z(t1), vC08B(aborted),
+		"coq": fmt.Sprintf("CaseNest %d %d %d %d %s %s %s %s %s %s %s [%s] %s %s %s %s %s",
+			pr.tTLD, pr.tA, pr.tS, nprov, warmTerm, vC08Z(t0), vC08Z(h0), vC08Z(h1), vC08Z(t1), vC08B(pr.mode == 1), vC08B(aborted),
 			strings.Join(ds, "; "), ansTerm, nsTerm, vC08Z(t4), vC08B(rc4 == dns.RcodeNameError), vC08B(childAsked)),
 		"desc": fmt.Sprintf("TTLs tld %d a.tld. %d s.a.tld. %d (ns0 glued, %d glue-less) warm=%v gap=%v mode=%d wire=%v: main tree [%v..%v], ns1 lookup at the child [%v..%v] (%d lookups), rcode=%d answered=%v aborted=%v; %v; %s; %s; withdrawn, lease end %v, asked again at t=%v: rcode=%d former child asked=%v",
 			pr.tTLD, pr.tA, pr.tS, pr.bare, pr.warm, time.Duration(pr.gap), pr.mode, pr.wire, time.Duration(t0), time.Duration(t1), time.Duration(h0), time.Duration(h1), nLookups,
